@@ -1,4 +1,4 @@
-import Driver.FwRun
+import Driver.Monitors
 
 open Driver Mb
 
@@ -23,6 +23,15 @@ def runFw (cases : List CaseBlock) : IO Unit := do
       else
         let first := ds.head!
         IO.println s!"case {c.id} {c.kind} DIFF tags={tagsStr ds} firstop={first.1}"
+      IO.println s!"sig {c.id} {String.intercalate "," (fwSig p.trace)}"
+      for (pid, r) in fwMonitors p.trace do
+        match r with
+        | none => pure ()
+        | some msg => IO.println s!"mon {pid} FAIL {c.id} {msg}"
+      match c.trailer.find? (fun w => w.head? == some "det") with
+      | some ("det" :: "ok" :: _) => pure ()
+      | some w => IO.println s!"mon C05 FAIL {c.id} determinism: {String.intercalate " " w}"
+      | none => pure ()
 
 def main (args : List String) : IO UInt32 := do
   let stdin ← IO.getStdin
